@@ -111,7 +111,9 @@ def wl_text(ctx, rng, case_no):
     wit = {"text": s, "available": W, "measurement": (mn, mx), "want": (want_min, want_max)}
     ctx.count("mon.text_identities")
     if not s.strip():
-        pass   # whitespace-only text: no words; only the bounds contract applies
+        # whitespace-only text has no words, but it has lines: the maximum is still the width of its widest line
+        if mx != want_max and "\t" not in s and not odd:
+            ctx.violation("text-maximum-is-not-widest-line:whitespace-only", wit)
     else:
         if mn != want_min:
             ctx.violation("text-minimum-is-not-widest-word" + tag, wit)
